@@ -1855,6 +1855,13 @@ def run_C15(pid, tier, seed, model_ok=True):
         for h in impl:
             for l in impl[h]:
                 seen.add(l.split(' ')[0][4:])
+        # the status delivered through the C API is the documented one (C15_status_constants: 0 no update, 1 installed,
+        # 2 had error, 3 bad patch, -1 error): where model and library agree on everything but the number an update call
+        # returned, that call is the failing input
+        for (h, idx, ml, il, ops_, hdr_) in list(divs):
+            if idx >= 0 and idx < len(ops_) and ops_[idx].split()[1:2] == ['update'] and ml.split(' ', 1)[1:] == il.split(' ', 1)[1:]:
+                fails.append((h, idx, 'C15: the update call returned status %s through the C API where the documented value for this outcome is %s' % (
+                    il.split(' ')[0][4:], ml.split(' ')[0][4:]), ops_, hdr_))
         # shorebird_update_with_result always hands out a result struct (callers read its status without a null check)
         for h, ops_ in hs:
             for j, l in enumerate(impl.get(h, [])):
